@@ -2,7 +2,7 @@
 PROP = "C19"
 from . import progress_contracts as pc
 LEVEL = 'other'
-EXPLANATION = ('Deductive (sequential reduction, no schedule is enumerated): every frame reaches the stream in exactly ONE write (so frames of two threads cannot mix at write granularity); in manual mode a redraw happens only when the interval has elapsed and re-arms the timer, hence redraws are at least `interval` apart.  Bounded: manual call sequences under a substituted clock, auto() lifecycle with real threads (thread dead afterwards, end message last), atomicity witness replayed without threads, and auto() under a deterministic scheduler over all interleavings up to a preemption bound (deadlocks and lost stop signals are violations).  Level `other`: single-write frames, the manual throttle and finish() (stop, join, then the end frame) are proved; the interleaving clauses of auto() are decided by the bounded scheduler exploration only.')
+EXPLANATION = ('Deductive (sequential reduction, no schedule is enumerated): every frame reaches the stream in exactly ONE write (so frames of two threads cannot mix at write granularity); in manual mode a redraw happens only when the interval has elapsed and re-arms the timer, hence redraws are at least `interval` apart; every start() arms the timer one interval after the moment of THAT start, however often the indicator was used before; current_value is total on every value of the shared position counter (no intermediate state of advance() makes a frame unbuildable).  Bounded: manual call sequences under a substituted clock, auto() lifecycle with real threads (thread dead afterwards, end message last), atomicity witness replayed without threads, and auto() under a deterministic scheduler over all interleavings up to a preemption bound (deadlocks and lost stop signals are violations).  Level `other`: single-write frames, the manual throttle and finish() (stop, join, then the end frame) are proved; the interleaving clauses of auto() are decided by the bounded scheduler exploration only.')
 LEVEL_NOTE = ('assumes: single stream writes are atomic (the granularity the property names); the spinner thread only calls advance(); _display() = placeholder expansion (re.sub, external) + _overwrite; lifecycle (set/join on every exit) is bounded only')
 try:
     from .C19_bounded import bounded, BOUNDED_RULE  # noqa: F401
